@@ -1,8 +1,10 @@
 ------------------------------- MODULE Remote -------------------------------
 (* Generator of remote-operation histories for C13 (ii): all sequences over the menu up to MaxOps.       *)
 (* The expected results are those of IpcAbs (the single shared server environment).                      *)
+(* Every operation is issued by one of Clients (independent client interpreters, each with its own        *)
+(* connection, dictionary handle and function proxies): what one client stores, every client reads.       *)
 EXTENDS Integers, Sequences, TLC, Json
-CONSTANTS Keys, Vals, MaxOps,
+CONSTANTS Keys, Vals, MaxOps, Clients,
           DsetVals, AssignVals, CallVals, PairA, PairB     \* the menus (subsets of the value ids) of each operation
 \* a character cannot be passed as a bare element of a Klong join (,0cx is the string "x"): such values only travel by text
 ArgVals == Vals \ {5}
@@ -13,10 +15,10 @@ VARIABLES env, hist
 vars == <<env, hist>>
 Init == env = [k \in Keys |-> A!NotSet] /\ hist = <<>>
 V(v) == [t |-> "v", v |-> v]
-Add(e) == hist' = Append(hist, e)
 Next ==
   /\ Len(hist) < MaxOps
-  /\ \/ \E k \in Keys, v \in DsetVals : env' = [env EXCEPT ![k] = v] /\ Add([op |-> "dset", k |-> k, v |-> v, obs |-> V(0)])
+  /\ \E c \in Clients : LET Add(e) == hist' = Append(hist, e @@ [c |-> c]) IN
+     \/ \E k \in Keys, v \in DsetVals : env' = [env EXCEPT ![k] = v] /\ Add([op |-> "dset", k |-> k, v |-> v, obs |-> V(0)])
      \/ \E k \in Keys, v \in AssignVals : env' = [env EXCEPT ![k] = v] /\ Add([op |-> "assign", k |-> k, v |-> v, obs |-> V(v)])
      \/ \E k \in Keys : env[k] # A!NotSet /\ UNCHANGED env /\ Add([op |-> "dget", k |-> k, obs |-> V(env[k])])
      \/ \E k \in Keys : env[k] \notin ({A!Undef, A!NotSet} \cup FnVals) /\ UNCHANGED env /\ Add([op |-> "eval", k |-> k, obs |-> V(env[k])])
